@@ -31,6 +31,9 @@ def data(rnd, shape, g):
   return (x * 2.0 ** g).astype(np.float32), zero
 
 
+STALE = []
+
+
 def scale_of(q, x, linear):
   s = q.scale
   if isinstance(s, (tf.Tensor, tf.Variable)):
@@ -40,6 +43,11 @@ def scale_of(q, x, linear):
     qs = q.quantization_scale
     qs = qs.numpy() if hasattr(qs, "numpy") else qs
     qs = np.broadcast_to(np.asarray(qs, dtype=np.float32), x.shape)
+    # the exposed scale is the scale of the LAST call: quantization_scale / data_type_scale
+    dts = q.data_type_scale
+    dts = np.asarray(dts.numpy() if hasattr(dts, "numpy") else dts, dtype=np.float32)
+    if not np.array_equal(s, (qs / dts).astype(np.float32)):
+      STALE.append(1)
   else:
     qs = s
   return s, qs
@@ -122,7 +130,9 @@ def main():
           continue
         qs = s
       if k:
-        q2 = make() if ak != "pts" else q
+        # history: half of the time the SAME object is called again on the other data (its exposed scale has to
+        # follow the data of the last call), otherwise a fresh one
+        q2 = q if (ak == "pts" or rnd.random() < 0.5) else make()
         xk = (x.astype(np.float64) * 2.0 ** k).astype(np.float32)
         y2 = call(q2, xk)
         s2, _ = scale_of(q2, xk, cls == "linear")
@@ -136,6 +146,10 @@ def main():
       continue
     finally:
       tf.keras.backend.set_image_data_format("channels_last")
+    if STALE:
+      del STALE[:]
+      errors.append({"k": "exposed_scale_is_not_the_scale_of_the_last_call", "meta": meta})
+      continue
     if not all(np.all(np.isfinite(v)) for v in (y, s, qs, y2, s2)):
       errors.append({"k": "nonfinite", "meta": meta, "x": [float(v) for v in x.reshape(-1)]})
       continue
